@@ -18,6 +18,7 @@ ASSUME = ["the simrex kernel, seams and probe nodes are correct (DESIGN 2, 10)",
           "sampling, not proof: holds for the explored specs/schedules/faults only", "graphs are drawn from the supported class S (DESIGN 3.1)"]
 
 PROPS = {
+    "C01": dict(mod="checks.c01", quick_runs=32, thorough_s=1500, opts=dict(pairs=1, max_nodes=4, max_steps=8), thorough_opts=dict(pairs=2, max_nodes=5, max_steps=12)),
     "C02": dict(mod="checks.c02", quick_runs=48, thorough_s=1500, opts=dict(variants=6), thorough_opts=dict(variants=16)),
     "C03": dict(mod="checks.c03", quick_runs=64, thorough_s=1500, opts=dict(episodes=4, wall_p=0.0), thorough_opts=dict(episodes=6)),
     "C04": dict(mod="checks.c04", quick_runs=64, thorough_s=1500, opts=dict(episodes=3), thorough_opts=dict(episodes=5)),
@@ -37,6 +38,10 @@ def main(argv) -> int:
     ap.add_argument("--seed", type=int, default=int(os.environ.get("VERIF_SEED", "20260927")))
     ap.add_argument("--no-minimise", action="store_true")
     a = ap.parse_args(argv)
+    from . import seams
+
+    seams.configure_env()
+    seams._quiet_imports()
     if a.prop == "selftest":
         from . import selftest
 
